@@ -130,6 +130,11 @@ def report_and_direction(chk: Check, repo: Repo, cls) -> None:
     chk.ob("report-re-anchors-the-estimate", up.site(), ok, "update_position(): position and timestamp are stored on every path" if ok else "update_position() does not store the reported position and the time of the report on every path (e.g. skips an unchanged value): the estimate keeps interpolating from the older anchor — it is ahead of the reported value and reaches the target before the travel time has elapsed", key="report|anchor")
     readers = sorted({f.qualname for f in repo.all_functions() if f.cls is not cls for n in ast.walk(f.node) if isinstance(n, ast.Attribute) and n.attr == "travel_direction" and isinstance(n.ctx, ast.Load)})
     chk.ob("moving-is-decided-by-time-not-by-the-direction-flag", f"{cls.module.relpath}:{cls.node.lineno}:{cls.name}", set(readers) <= {"Cover.stop"}, f"`travel_direction` is read outside TravelCalculator in {readers} (allowed: Cover.stop, to choose the step direction)", key="direction|readers")
+    # ... and inside the calculator neither the estimate nor "is it moving" consults the flag: after stop() (flag
+    # STOPPED) a position report still re-anchors an estimate that runs to the stop position; only the direction
+    # predicates and the reached-or-exceeded test of the interpolation read it
+    inner = sorted({m.name for m in cls.methods.values() for n in ast.walk(m.node) if isinstance(n, ast.Attribute) and n.attr == "travel_direction" and isinstance(n.ctx, ast.Load)})
+    chk.ob("moving-is-decided-by-time-not-by-the-direction-flag", f"{cls.module.relpath}:{cls.node.lineno}:{cls.name}", {"current_position", "is_traveling"}.isdisjoint(inner), f"`travel_direction` is read inside TravelCalculator by {inner}; never by current_position / is_traveling themselves - a stopped calculator that received a report would freeze on it while is_traveling() stays true", key="direction|inner-readers")
     cv = repo.func("xknx.devices.cover", "Cover._current_position_from_rv")
     chk.unit(cv)
     ccfg = CFG(cv.node)
